@@ -1,6 +1,6 @@
 (* C13  Crash atomicity of archive writes.
    Only statements, each closed by a lemma of Store/*.v, with Print Assumptions. *)
-From Klepto Require Import OMap OMapFacts DictSpec DictFacts FileArch Backends DirProto.
+From Klepto Require Import OMap OMapFacts DictSpec DictFacts FileArch Backends DirProto SqlCrash.
 
 (* single file: write the staging file, then replace the target.  Whatever prefix of the actions was
    executed - the write of the staging file possibly cut short - a new process reads the old or the
@@ -26,6 +26,24 @@ Theorem C13_sql_update_crash_prefix : forall r m2 n k,
   let r' := r ++ firstn n m2 in
   sql_select r' k = sql_select r k \/ (exists v, In (k, v) m2 /\ sql_select r' k = Some v).
 Proof. exact sql_update_crash_prefix. Qed.
+
+(* ... for every operation of the mapping protocol: the operation IS the run of its statements, and
+   after any committed prefix every key reads its previous value, a value the operation writes for
+   it, or - if the operation deletes it - nothing; keys the operation does not name are unchanged *)
+Theorem C13_sql_step_is_its_statements : forall r o, fst (sql_step r o) = srun r (sql_stmts r o).
+Proof. exact sql_step_is_stmts. Qed.
+
+Theorem C13_sql_op_crash_prefix : forall r o n k,
+  let r' := srun r (firstn n (sql_stmts r o)) in
+  sql_select r' k = sql_select r k \/
+  (exists v, In (SIns k v) (sql_stmts r o) /\ sql_select r' k = Some v) \/
+  (In (SDel k) (sql_stmts r o) /\ sql_select r' k = None).
+Proof. exact sql_op_crash_prefix. Qed.
+
+Theorem C13_sql_untouched_key_unchanged : forall r o n k,
+  (forall s, In s (sql_stmts r o) -> stmt_key s <> k) ->
+  sql_select (srun r (firstn n (sql_stmts r o))) k = sql_select r k.
+Proof. exact sql_untouched_key_unchanged. Qed.
 
 (* opening an archive rewrites the file with what it read: harmless for a crash *)
 Theorem C13_file_open_crash_atomic : forall fs st, In st (crash_states fs (save (asdict fs))) -> asdict st = asdict fs.
@@ -85,3 +103,6 @@ Print Assumptions C13_dir_remove_crash_atomic.
 Print Assumptions C13_dir_store_completes.
 Print Assumptions C13_dir_overwrite_window_refuted.
 Print Assumptions C13_dir_remove_file_by_file_refuted.
+Print Assumptions C13_sql_step_is_its_statements.
+Print Assumptions C13_sql_op_crash_prefix.
+Print Assumptions C13_sql_untouched_key_unchanged.
